@@ -104,6 +104,13 @@ where T: Types
     /// Wraps a `WorkerRequest` with an auto-incrementing seq and sends it to
     /// the FlushWorker.
     fn send_request(&mut self, req: WorkerRequest<T>) -> Result<(), io::Error> {
+        #[cfg(raft_log_verif)]
+        crate::verif::point("send", match &req {
+            WorkerRequest::Write(_) => 0,
+            WorkerRequest::AppendFile(_) => 1,
+            WorkerRequest::RemoveChunks { .. } => 2,
+            _ => 3,
+        });
         self.sent_seq += 1;
         self.flush_tx
             .send(SeqRequest {
